@@ -320,9 +320,16 @@ impl Cfg {
                 }
                 if let Some(reg) = it {
                     ranges.push(reg);
-                    break;
                 }
-                break;
+                // This is the first use on this path. Keep searching the
+                // other paths: stopping at whichever use is met first makes
+                // the result depend on the iteration order of the successor
+                // sets.
+                continue;
+            }
+            // The value is overwritten on this path before it is used.
+            if next.kill_reg().contains(&item) {
+                continue;
             }
 
             queue.extend(next.nexts().clone().into_iter());
